@@ -1,5 +1,6 @@
 """C10 - statistics and histograms equal their definition regardless of chunking or views."""
 PROPERTY = 'C10'
+THOROUGH_SEEDS = 2      # the thorough enumeration of this driver is already minutes long
 LEVEL = 'exploration'
 DEDUCTIVE = ['contracts.c10_stats', 'contracts.c20_array']
 BUDGET_S = {'quick': 200.0, 'thorough': 600.0}
